@@ -229,10 +229,7 @@ def _edit_unit(unit):
     return acc
 
 
-def history_layer(ctx):
-    """serial, ONE process, fresh lexer/parser per input: every atom pair, every built-in / near-miss call and the edit corpus,
-    first in order and then in reverse; the outcome of a string must be the same in both passes (module-level state such as a
-    function table that is written to, memo tables, counters)."""
+def _history_texts():
     from vt.refparse import REF_FUNCTIONS
     texts = [a + b for a in ATOMS for b in ATOMS]
     for name in REF_FUNCTIONS:
@@ -241,19 +238,40 @@ def history_layer(ctx):
             for args in ("()", "(a)", "(a, b)", "(a, b, c)"):
                 texts.append(head + args)
     texts += corpus()
-    first = {}
+    seen, out = set(), []
     for t in texts:
-        first.setdefault(t, run_one(t, ODataLexer(), ODataParser()))
-        ctx.count("executions")
+        if t not in seen:
+            seen.add(t)
+            out.append(t)
+    return out
+
+
+def _history_pass(order):
+    """runs in a FRESH forked child: outcomes of all texts, parsed in the given order, fresh lexer/parser per text"""
+    texts = _history_texts()
+    if order == "reverse":
+        texts = texts[::-1]
+    return {t: run_one(t, ODataLexer(), ODataParser()) for t in texts}
+
+
+def history_layer(ctx):
+    """two fresh processes parse the same texts (every atom pair, every built-in / near-miss call shape, the edit corpus), one
+    in enumeration order and one in reverse order; every text must have the same outcome in both: for any two texts, each is
+    parsed once before and once after the other (module-level state such as a function table that is written to, memo tables)."""
+    import multiprocessing as mp
+    res = {}
+    for order in ("forward", "reverse"):
+        with mp.get_context("fork").Pool(1) as pool:
+            res[order] = pool.apply(_history_pass, (order,))
     n = 0
-    for t in reversed(texts):
-        oc = run_one(t, ODataLexer(), ODataParser())
-        ctx.count("executions")
+    for t, oc in res["forward"].items():
+        ctx.count("executions", 2)
         n += 1
-        if oc != first[t]:
-            ctx.violation("history:outcome-changed:%s->%s" % (first[t][0], oc[0]), {"layer": "history", "text": t, "first_pass": list(first[t]), "second_pass": list(oc),
-                                                                                 "outcome": oc[0], "detail": "same string, different outcome later in the same process"})
-    return len(texts)
+        if res["reverse"][t] != oc:
+            ctx.violation("history:outcome-depends-on-order:%s->%s" % (oc[0], res["reverse"][t][0]),
+                          {"layer": "history", "text": t, "forward_pass": list(oc), "reverse_pass": list(res["reverse"][t]), "outcome": res["reverse"][t][0],
+                           "detail": "same string, different outcome depending on what the process parsed before"})
+    return n
 
 
 def run(ctx):
